@@ -284,6 +284,78 @@ pub fn check(case: &Case, p: &mut Probe) -> Check {
     Ok(())
 }
 
+/// matrices with one dimension beyond 2^16 and a handful of edges whose indices in that dimension
+/// agree modulo 65536 (5 and 65541, 0 and 65536, ...): only the nodes that carry an edge are used as roots
+fn wide_strategy(_t: Tier) -> BoxedStrategy<Case> {
+    const ALIASED: [usize; 10] = [5, 65_541, 6, 65_542, 0, 65_536, 63, 65_599, 65_535, 100];
+    (2usize..=6, proptest::collection::vec((any::<u16>(), any::<u16>()), 4..=12), any::<bool>())
+        .prop_map(|(small, edges, tall)| {
+            let big = 65_600usize;
+            let mut h = if tall { Mat::new(big, small) } else { Mat::new(small, big) };
+            let mut seen = BTreeSet::new();
+            for (a, b) in edges {
+                let e = if tall { (ALIASED[idx(b, ALIASED.len())], idx(a, small)) } else { (idx(a, small), ALIASED[idx(b, ALIASED.len())]) };
+                if seen.insert(e) {
+                    h.ones.push(e);
+                }
+            }
+            Case { h, class: "wide-index".into() }
+        })
+        .boxed()
+}
+
+fn check_wide(case: &Case, p: &mut Probe) -> Check {
+    let m = &case.h;
+    let h = m.to_sparse();
+    let g = Graph::from_mat(m);
+    let (r, c) = (m.rows, m.cols);
+    let girth = {
+        // shortest cycle through any node that carries an edge (all other nodes are isolated)
+        let mut best: Option<usize> = None;
+        for &(i, j) in &m.ones {
+            for v in [i, r + j] {
+                if let Some(x) = g.local_girth(v) {
+                    best = Some(best.map_or(x, |b| b.min(x)));
+                }
+            }
+        }
+        best
+    };
+    // the global girth searches from every column and allocates per root: only asked for in the tall
+    // layout (few columns), where it costs milliseconds instead of seconds
+    if c <= 8 {
+        let got = guarded(|| h.girth()).map_err(|e| Fail::new("panic", format!("girth() panicked: {e}")))?;
+        ensure!(got == girth, "girth", "girth() = {got:?}, the shortest cycle has length {girth:?} ({r} x {c}, ones {:?})", m.ones);
+        for &b in &[4usize, 6, 8, 12] {
+            let got = guarded(|| h.girth_with_max(b)).map_err(|e| Fail::new("panic", format!("girth_with_max({b}) panicked: {e}")))?;
+            ensure!(got == bounded(girth, b), "girth-bounded", "girth_with_max({b}) = {got:?}, girth is {girth:?} ({r} x {c}, ones {:?})", m.ones);
+        }
+    }
+    let mut roots: Vec<usize> = m.ones.iter().flat_map(|&(i, j)| [i, r + j]).collect();
+    roots.sort_unstable();
+    roots.dedup();
+    for &v in &roots {
+        let node = if v < r { Node::Row(v) } else { Node::Col(v - r) };
+        let want = g.local_girth(v);
+        let got = guarded(|| h.girth_at_node(node)).map_err(|e| Fail::new("panic", format!("girth_at_node({node:?}) panicked: {e}")))?;
+        ensure!(got == want, "local-girth", "girth_at_node({node:?}) = {got:?}, the shortest cycle through that node has length {want:?} ({r} x {c}, ones {:?})", m.ones);
+        for &b in &[3usize, 4, 5, 6, 7, 8] {
+            let got = guarded(|| h.girth_at_node_with_max(node, b)).map_err(|e| Fail::new("panic", format!("girth_at_node_with_max panicked: {e}")))?;
+            ensure!(got == bounded(want, b), "local-girth-bounded", "girth_at_node_with_max({node:?}, {b}) = {got:?}, local girth is {want:?}");
+        }
+        let res = guarded(|| h.bfs(node)).map_err(|e| Fail::new("panic", format!("bfs({node:?}) panicked: {e}")))?;
+        let d = g.dist(v, None);
+        ensure!(res.row_nodes_distance.len() == r && res.col_nodes_distance.len() == c, "bfs-shape", "bfs({node:?}) result has wrong lengths");
+        ensure!((0..r).all(|i| res.row_nodes_distance[i] == d[i]) && (0..c).all(|j| res.col_nodes_distance[j] == d[r + j]), "bfs", "bfs({node:?}): distances differ from the shortest paths ({r} x {c}, ones {:?})", m.ones);
+        p.inner += 8;
+    }
+    p.class_if(girth.is_some(), "has-cycle");
+    if girth.is_some() {
+        p.nontrivial();
+    }
+    Ok(())
+}
+
 fn regression(_t: Tier) -> Vec<Case> {
     // D6: a 4-cycle with a pendant path
     let mut h = Mat::new(4, 4);
@@ -317,6 +389,14 @@ pub fn property() -> Property {
                 strategy: |t| strategy(t.pick(10, 16)),
                 check,
                 health: &[("root-off-every-shortest-cycle", 0.20), ("root-on-no-cycle-in-cyclic-graph", 0.10)],
+            }),
+            Box::new(Sub {
+                name: "wide-index",
+                rule: "matrices with 2..=6 rows and 65 600 columns (or transposed) carrying 4..=12 edges whose indices in the large dimension are drawn from {0, 5, 6, 63, 100, 65535, 65536, 65541, 65542, 65599} (pairs that agree modulo 2^16): girth and bounded girth (tall layout only, where they are cheap), and local girth / bounded local girth / BFS distances from every node that carries an edge, against the same own oracles",
+                cases: |t| t.pick(400, 20_000),
+                strategy: wide_strategy,
+                check: check_wide,
+                health: &[("has-cycle", 0.15)],
             }),
         ],
         assumptions: vec!["the Tanner graph is simple (a SparseMatrix cannot hold duplicate entries), so the shortest possible cycle has length 4".into()],
